@@ -1,22 +1,47 @@
 """C18 - backends write only inside the output folder, verbatim, as the manifest says."""
+import time
+
 from harness import core
 from harness.suites import be
 
 
 MANIFEST = dict(
-    text='Lean 4 theorems over a model of stone/backend.py (brace escaping vs the str.format subset, emit/indent/block '
-         'semantics, POSIX path containment as an iff, manifest) tied to the code by a translator for the '
-         'replace-chain and by differential runs of the real Backend against the compiled model.',
-    note='Trusted: Lean kernel, translator, correspondence generators, str.format / textwrap / os.path as external '
-         'calls (re-implemented in the model and compared on every run). File-system effects are observed, not proved.',
-    technique='Lean 4 proof + translator + differential correspondence',
+    text='Lean 4 theorems over import-free models of stone/backend.py: POSIX join/normpath/abspath/relpath and '
+         '_relative_output_path (containment as an iff on normalised component lists, accepted names are proper '
+         'descending paths), brace escaping vs the str.format subset (raw segments and placeholder fields), the emit machine '
+         '(emit/emit_raw/emit_wrapped_text/placeholders/indent/block/generate_multiline_list) equal to an independent reference '
+         'pretty-printer for every script with indentation restored, textwrap.fill keeping every word in order behind its '
+         'prefixes, OutputManifest and a small file-system model (refusal before any effect, manifest run = sorted set of the '
+         'files the real run writes, manifest run writes nothing). Tied to the code by translator tables (replace chain, '
+         'three-way containment test, call order of validate/record/write, indent step, wrap defaults) and by differential runs '
+         'of the real Backend / CodeBackend / SwiftBaseBackend / Compiler against the compiled model, plus direct oracles on '
+         'the real file system and an independent Python pretty-printer.',
+    note='Trusted: Lean kernel, translator, correspondence generators, str.format / textwrap / os.path / os.makedirs / '
+         'shutil.copy as external calls (re-implemented in the model and compared on every run). File-system effects of '
+         'the built-in backends are observed (every backend x 3 specs x option sets), not proved; the file-system model '
+         'abstracts directory creation and does not model symlinks. Placeholder names are restricted to identifiers. '
+         'manifest_eq_real assumes copy_to_path destinations are pre-existing directories (as in all built-in backends).',
+    technique='Lean 4 proof + translator + differential correspondence + direct oracles',
     design='5 C18')
 
 
 def run(ck):
     ck.build_and_audit()
-    be.suite_format(ck)
-    return ck.finish(rule=be.RULE)
+    ck.assumptions.extend([
+        'emit_placeholder names are identifiers ([A-Za-z_][A-Za-z0-9_]*) or empty; other names use str.format syntax that '
+        'is outside the modelled subset',
+        'os.getcwd() is absolute and normalised; no symlinks inside the scratch tree; POSIX (os.sep == "/")',
+        'manifest_eq_real: every copy_to_path destination is a directory that exists before the run',
+        'paths contain no NUL character',
+    ])
+    timings = {}
+    for name, suite in [('format', be.suite_format), ('path', be.suite_path), ('emit', be.suite_emit),
+                        ('wrap', be.suite_wrap), ('manifest_api', be.suite_manifest_api),
+                        ('manifest_backends', be.suite_manifest_backends)]:
+        t0 = time.time()
+        suite(ck)
+        timings[name] = round(time.time() - t0, 2)
+    return ck.finish(rule=be.RULE, extra_cov={'suite_seconds': timings})
 
 
 def replay(ck, path):
